@@ -203,6 +203,28 @@ st = captured[0]
 c = st.frames[0].contexts[-1]
 if not c.is_exiting or c.inner_stack is not None or "slow_exit" not in [f.funcname for f in st.frames]:
     leg.violation("gcm-exiting", f"exiting generator-based manager: is_exiting={c.is_exiting} inner_stack={c.inner_stack} frames={[f.funcname for f in st.frames]}")
+# the SAME function observed first while its manager is exiting, then (a later call) while it is suspended in the body, then
+# exiting again: what one observation found must not colour the next one of the same code
+def same_code(stop_in_body):
+    ROOT[0] = sys._getframe(0)
+    with slow_exit():
+        if stop_in_body:
+            captured.append(stackscope.extract_since(ROOT[0]))
+for rnd_, in_body in enumerate([False, True, False, True]):
+    del captured[:]
+    same_code(in_body)
+    key = ("gcm-same-code-exit-then-body", rnd_)
+    leg.case(key, True)
+    stb = captured[0]
+    cb = stb.frames[0].contexts[-1]
+    if in_body:
+        ok = (not cb.is_exiting and cb.inner_stack is not None and [f.funcname for f in cb.inner_stack.frames] == ["slow_exit"]
+              and "slow_exit" not in [f.funcname for f in stb.frames])
+    else:
+        ok = cb.is_exiting and cb.inner_stack is None and "slow_exit" in [f.funcname for f in stb.frames]
+    if not ok or stb.error is not None:
+        leg.violation(key, f"call {rnd_} of the same function ({'in the body' if in_body else 'exiting'}): is_exiting={cb.is_exiting} "
+                           f"inner_stack={cb.inner_stack!r} frames={[f.funcname for f in stb.frames]} error={stb.error!r}")
 # pushed function carrying __wrapped__ and a closure is still a plain push
 def make_wrapped():
     def release(*a): pass
